@@ -1,3 +1,3 @@
-CONSTANTS Limit = 64
+CONSTANTS Limit = 100
 INIT GenInit
 NEXT GenNext
